@@ -224,6 +224,20 @@ type c19Exclude struct {
 	// KeyCase: bit 0 = keys of rows and include entries written with a capital first letter,
 	// bit 1 = the key of the exclude entry written in upper case (keys are case-insensitive)
 	KeyCase int `json:"key_case,omitempty"`
+	// Pre: 0 = the job stands alone, n = job n of c19PreJobs is written before it (the verdicts of
+	// one job do not depend on the matrices of other jobs)
+	Pre int `json:"pre,omitempty"`
+}
+
+// c19PreJobs: jobs written before the job under test. Each is clean on its own and uses the key
+// names of the cases (k, inc) in a way that could leave something behind: a row given by an
+// expression next to a literal exclude, the same with the key in upper case, an include-only key
+// given by an expression, literal rows with other values and a matching exclude.
+var c19PreJobs = []string{
+	"  pre:\n    runs-on: ubuntu-latest\n    strategy:\n      matrix:\n        k: ${{ fromJSON(vars.ROW) }}\n        other: [1, 2]\n        exclude:\n          - {other: 1}\n    steps:\n      - run: echo\n",
+	"  pre:\n    runs-on: ubuntu-latest\n    strategy:\n      matrix:\n        K: ${{ fromJSON(vars.ROW) }}\n        INC: ${{ fromJSON(vars.ROW) }}\n        other: [1, 2]\n        exclude:\n          - {other: 2}\n    steps:\n      - run: echo\n",
+	"  pre:\n    runs-on: ubuntu-latest\n    strategy:\n      matrix:\n        other: [1, 2]\n        include:\n          - {other: 1, k: '${{ vars.E }}', inc: '${{ vars.E }}'}\n        exclude:\n          - {other: 1}\n    steps:\n      - run: echo\n",
+	"  pre:\n    runs-on: ubuntu-latest\n    strategy:\n      matrix:\n        k: [zz1, {zz: [2]}]\n        inc: [zz3]\n        exclude:\n          - {k: zz1, inc: zz3}\n    steps:\n      - run: echo\n",
 }
 
 func (c *c19Exclude) defKey(k string) string {
@@ -242,7 +256,11 @@ func (c *c19Exclude) excKey(k string) string {
 
 func (c *c19Exclude) render() (src string, desc string) {
 	var b strings.Builder
-	b.WriteString(c19Head)
+	head := c19Head
+	if c.Pre > 0 {
+		head = strings.Replace(c19Head, "jobs:\n", "jobs:\n"+c19PreJobs[c.Pre-1], 1)
+	}
+	b.WriteString(head)
 	if c.RowExpr {
 		b.WriteString("        " + c.defKey("k") + ": ${{ fromJSON(vars.ROW) }}\n")
 	} else if c.Row != nil {
@@ -270,7 +288,10 @@ func (c *c19Exclude) render() (src string, desc string) {
 	}
 	b.WriteString(c19Tail)
 	src = b.String()
-	desc = strings.ReplaceAll(strings.TrimPrefix(src, c19Head), "\n", " / ")
+	desc = strings.ReplaceAll(strings.TrimPrefix(src, head), "\n", " / ")
+	if c.Pre > 0 {
+		desc = fmt.Sprintf("after pre-job %d: %s", c.Pre, desc)
+	}
 	return
 }
 
@@ -311,11 +332,17 @@ func (c *c19Exclude) reference() string {
 }
 
 func c19ExcludeCase(r *vReport, c *c19Exclude, lint func(string) vLintResult) {
-	if c.KeyCase == 0 && vReplayInput() == nil {
+	if c.KeyCase == 0 && c.Pre == 0 && vReplayInput() == nil {
 		// the same case with the keys in other letter cases (all four combinations)
 		for kc := 1; kc <= 3; kc++ {
 			c2 := *c
 			c2.KeyCase = kc
+			c19ExcludeCase(r, &c2, lint)
+		}
+		// ... and after each of the jobs of c19PreJobs
+		for pre := 1; pre <= len(c19PreJobs); pre++ {
+			c2 := *c
+			c2.Pre = pre
 			c19ExcludeCase(r, &c2, lint)
 		}
 	}
@@ -361,6 +388,9 @@ func c19ExcludeCase(r *vReport, c *c19Exclude, lint func(string) vLintResult) {
 			kind = "exclude-wrong-verdict"
 		}
 		feat := ""
+		if c.Pre > 0 {
+			feat += "+after-another-job"
+		}
 		if c.RowExpr {
 			feat += "+row-expr"
 		}
@@ -378,7 +408,7 @@ func c19ExcludeCase(r *vReport, c *c19Exclude, lint func(string) vLintResult) {
 func TestVerifC19(t *testing.T) {
 	r := vNewReport("C19")
 	defer r.Write(t)
-	r.Extra["rule"] = "value algebra V (scalars, sequences, mappings to depth 2, both written member orders): duplicate check on all rows of 2 and 3 values over V; exclude check on rows of <=2 values over V' x {no include, include same key, include-only key; two include entries over 8 values each} x exclude {row key, include-only key, undefined key} x value in V', plus rows / include / include entries / exclude entries given by expressions, and single members replaced by expressions at every depth (8 shapes) in rows, include and exclude values; a sub-slice under every map iteration order (deviation 1). oracle = structural equality / containment by recursion. class = (check, reference verdict); non-trivial = something must be reported"
+	r.Extra["rule"] = "value algebra V (scalars, sequences, mappings to depth 2, both written member orders): duplicate check on all rows of 2 and 3 values over V; exclude check on rows of <=2 values over V' x {no include, include same key, include-only key; two include entries over 8 values each} x exclude {row key, include-only key, undefined key} x value in V', plus rows / include / include entries / exclude entries given by expressions, and single members replaced by expressions at every depth (8 shapes) in rows, include and exclude values; every exclude case with keys in 4 letter-case combinations and after each of 4 other jobs (whose matrices use the same key names: expression rows, expression include values, other literal values); a sub-slice under every map iteration order (deviation 1). oracle = structural equality / containment by recursion. class = (check, reference verdict); non-trivial = something must be reported"
 	r.Extra["assumptions"] = []string{"'built from expressions' covers a whole row / include / entry and, for the exclude check, any single member at any depth (it may be anything); duplicate reports among expression members of one row are not claimed"}
 	lint := func(src string) vLintResult { return vLint(src, nil) }
 	if raw := vReplayInput(); raw != nil {
